@@ -36,7 +36,7 @@ func c18(tier string) []*explore.Scenario {
 	for _, newKey := range []bool{true, false} {
 		out = append(out, c18StopRace(newKey, bound+1))
 	}
-	out = append(out, c18WriteFault(bound), c18StatefulKey(bound))
+	out = append(out, c18WriteFault(bound), c18StatefulKey(bound), c18CancelWhileWriting(bound))
 	seqLen := 5
 	if tier == "thorough" {
 		seqLen = 7
@@ -653,6 +653,75 @@ func c18StatefulKey(bound int) *explore.Scenario {
 			} else if fmt.Sprint(got[0]) != "[1 3 5]" || fmt.Sprint(got[1]) != "[2 4 6]" {
 				vsched.Fail(fam+"|delivery", "envelopes 1..6 alternate between two keys: the connections received %v and %v", got[0], got[1])
 			}
+			dm.Stop()
+			shared.A.Break()
+			shared.B.Break()
+			vsched.Quiesce()
+			if !runDone {
+				vsched.Fail(fam+"|run-hang", "Run did not return after Stop")
+			}
+		},
+	}
+}
+
+// c18CancelWhileWriting: an envelope written on k0's connection is stuck in the
+// shared transport's Write (nobody takes it: back-pressure) when Cancel(k0) is
+// called. Cancel returns; envelopes for another key are still handed over,
+// new keys are still announced, Cancel of another key works; once the shared
+// transport moves again everything winds down.
+func c18CancelWhileWriting(bound int) *explore.Scenario {
+	fam := "C18/cancel"
+	return &explore.Scenario{
+		Name: "C18/cancel-while-shared-write-is-blocked", Family: fam, Prop: "C18", Bound: bound,
+		Run: func() {
+			tap := &env.Tap{}
+			shared := env.NewPipe(tap, env.PipeOpts{Name: "shared", Cap: 0}) // rendezvous: a write blocks until the far side reads
+			var conns []goat.RpcReadWriter
+			got := map[int][]uint64{}
+			ctx, cancel := context.WithCancel(context.Background())
+			defer cancel()
+			dm := goat.NewDemux(ctx, shared.B, func(r *env.Rpc) string { return r.GetHeader().GetSource() }, func(rw goat.RpcReadWriter) {
+				idx := len(conns)
+				conns = append(conns, rw)
+				for {
+					r, err := rw.Read(context.Background())
+					if err != nil {
+						return
+					}
+					got[idx] = append(got[idx], r.Id)
+				}
+			})
+			runDone := false
+			vsched.GoNamed("demux-run", func() { dm.Run(); runDone = true })
+			vsched.Settle()
+			vsched.GoNamed("remote", func() { shared.A.Write(context.Background(), c18Msg(1, "k0")) })
+			vsched.Quiesce()
+			if len(conns) != 1 {
+				vsched.Fail(fam+"|harness", "k0 not announced")
+				return
+			}
+			vsched.Explore(true)
+			wdone := false
+			vsched.GoNamed("writer-k0", func() { conns[0].Write(context.Background(), c18Msg(100, "k0")); wdone = true })
+			vsched.Quiesce() // the demux's writer for k0 is inside the shared transport's Write; nobody reads there
+			cdone := false
+			vsched.GoNamed("canceller", func() { dm.Cancel("k0"); cdone = true })
+			vsched.Quiesce()
+			if !cdone {
+				vsched.Fail(fam+"|cancel-hang", "Cancel(k0) does not return while an envelope of k0 is stuck in the shared transport's Write; threads: %s", threadList())
+			}
+			vsched.GoNamed("remote2", func() { shared.A.Write(context.Background(), c18Msg(2, "k1")) })
+			vsched.Quiesce()
+			if len(conns) != 2 || len(got[1]) != 1 {
+				vsched.Fail(fam+"|other-key-disturbed", "while an envelope of (cancelled) k0 is stuck in the shared transport's Write, an envelope for k1 was not announced/handed over (connections %d, k1 received %v); threads: %s", len(conns), got[1], threadList())
+			}
+			c2 := false
+			vsched.GoNamed("canceller2", func() { dm.Cancel("k1"); c2 = true })
+			vsched.Quiesce()
+			if !c2 {
+				vsched.Fail(fam+"|cancel-hang", "Cancel(k1) blocks while k0's write is stuck")
+			}
+			_ = wdone
 			dm.Stop()
 			shared.A.Break()
 			shared.B.Break()
